@@ -307,7 +307,7 @@ struct MisuseBody : ExecFunction {
         after = true;       // must not be reached: the report fails the test right there
     }
 };
-struct NextBody : ExecFunction { bool ran = false; void exec() override { ran = true; char* q = new char[4]; delete[] q; } };
+struct NextBody : ExecFunction { bool ran = false; void exec() override { ran = true; char* q = (char*)operator new[](4); q[0] = 0; operator delete[](q); } };
 
 const char* ENTRY[] = {"delete", "delete[]", "free", "realloc"};
 const char* KIND[] = {"guard-overrun", "foreign-pointer", "family-mismatch"};
